@@ -149,7 +149,7 @@ impl Prop for C06 {
                 }
             })
             .boxed();
-        Some((s, tier.pick(4_000, 150_000)))
+        Some((s, tier.pick(20_000, 300_000)))
     }
     fn enumerate(&self, _tier: Tier) -> Vec<Case> {
         (0..corpus().len())
